@@ -197,6 +197,9 @@ class GlobTap:
         tap = self
 
         def glob(path, pattern, **kw):
+            if Path(path) != tap.jobs:          # only the loops over <workdir>/jobs are of interest
+                yield from tap.orig(path, pattern, **kw)
+                return
             loop = []
             tap.loops.append(loop)
             for p in tap.orig(path, pattern, **kw):
@@ -300,7 +303,7 @@ def phase_i(payload):
         g_new = build(spec, True, None, n_new)
         out.append(dict(old=[ident(o) for o in n_old], new=[ident(o) for o in n_new],
                         old_type=[typeid(o) for o in n_old], new_type=[typeid(o) for o in n_new],
-                        old_cls=[type(o).__name__ for o in n_old]))
+                        old_cls=[type(o).__name__.split(".")[0] for o in n_old]))
         del g_old, g_new
     return out
 
